@@ -17,6 +17,8 @@ ADDENDA = {
            "handler answers with a bare status. Requests of 509..512 octets; handlers that raise while being asked; the HTTP half sees the query string.",
     "C11": "The target expressions of the top file are evaluated by the Lean matcher model as well (evalConcrete). Target expressions with not followed by and.",
     "C12": "Histories contain replacements that keep the old modification time and texts that differ only in leading white space. Histories in which a list is merged from several files and a later file changes; histories that only repeat an already applied file.",
+    "C13": "Chains with a nested composite source (own merge flags) compared with the same composite hidden behind a plain "
+           "wrapper source: differential on the implementation only.",
     "C14": "Histories contain in-place rewrites of equal length with the old mtime restored (only ctime differs). A liberal line format whose main expression also matches commented-out entries (the ignore expression wins), on every run.",
     "C15": "Deterministic kill points: the writer is SIGKILLed at the entry of its k-th pwrite64 / fdatasync / unlink / "
            "ftruncate (strace injection); a database a fresh process cannot read is a violation. Histories in which a long-lived source is asked for other systems between a change and the next read; a second connection's complete call placed between two SQL statements of a call (results and rows must be those of one of the two sequential orders computed by the model).",
@@ -28,7 +30,7 @@ ADDENDA = {
            "the same keyword names and other values. Values that are not str carry their type in every observation.",
     "C08": "The clause \"no transfer size is announced\" is evaluated on the trace (every OACK is the negotiated one, which "
            "has no tsize in netascii mode).",
-    "C16": "A grid of prefix lengths in several spellings (/0, /00, /032 ...) on fixed addresses, on every run.",
+    "C16": "A grid of prefix lengths in several spellings (/0, /00, /032 ...) on fixed addresses, on every run. IPv6 addresses whose text starts like a mapped address although ffff is their 4th or 5th group.",
     "C18": "The universe contains a system whose data values are present but falsy non-strings.",
     "C19": "The LRU component also exercises Mapping.get(key, default); a YAML scenario with a cache too small for two systems. Reads that fail inside the store between other calls (a lock left behind is a deadlock); text source without cache.",
     "C20": "The REAL start()/stop()/_run of both servers run under a deterministic scheduler (every source line a pre-emption "
